@@ -201,6 +201,38 @@ impl SeqScenario {
     }
 }
 
+/// Tag each finding with whether a WAL file had been reclaimed before the (re)open that precedes the
+/// failing operation: the fingerprint of C12's listed finding (positional cursors after reclamation).
+pub fn tag_removal_facts(plan: &Plan, rr: &RunResult, findings: &mut [Finding]) {
+    let mut removed_any = false;
+    let mut reopened_after_removal = false;
+    let mut ret_pos: BTreeMap<u32, bool> = BTreeMap::new();
+    let opsx = index_ops(plan);
+    for inc in rr.incs.iter() {
+        // a fresh process is a reopen too
+        if removed_any {
+            reopened_after_removal = true;
+        }
+        for e in &inc.events {
+            if e.t == "io" && e.io.as_ref().map(|io| io.kind == "Remove").unwrap_or(false) {
+                removed_any = true;
+            }
+            if e.t == "ret" {
+                if let Some(id) = e.op {
+                    if matches!(opsx.get(&id).map(|o| &o.kind), Some(OpKind::Open { .. })) && removed_any {
+                        reopened_after_removal = true;
+                    }
+                    ret_pos.insert(id, reopened_after_removal);
+                }
+            }
+        }
+    }
+    for f in findings.iter_mut() {
+        let v = ret_pos.get(&f.op).copied().unwrap_or(false);
+        f.facts.insert("reopened_after_file_removal".into(), serde_json::json!(v));
+    }
+}
+
 pub fn judge_seq(plan: &Plan, rr: &RunResult) -> (Vec<Finding>, BTreeMap<String, u64>) {
     let mut m = SeqModel::new(plan);
     m.run(rr);
@@ -233,7 +265,14 @@ impl Scenario for SeqScenario {
         if (self.trigger)(&plan, &rr, &m) {
             out.keys.push(plan_shape_key(&plan, &rr));
         }
-        for f in self.map_findings(m.findings.clone()).iter() {
+        let mut tagged = m.findings.clone();
+        tag_removal_facts(&plan, &rr, &mut tagged);
+        // findings that carry the fingerprint of C12's listed finding are not this property's verdict
+        let (contaminated, clean): (Vec<Finding>, Vec<Finding>) = tagged.into_iter().partition(|f| f.facts.get("reopened_after_file_removal") == Some(&serde_json::json!(true)) && !f.rule.starts_with("harness."));
+        if !contaminated.is_empty() {
+            out.stat("contaminated_by_known_c12_finding", 1);
+        }
+        for f in self.map_findings(clean).iter() {
             if self.owns.iter().any(|p| f.rule.starts_with(p)) {
                 out.findings.push((plan.clone(), f.clone()));
             } else if f.rule.starts_with("harness.") {
@@ -250,7 +289,9 @@ impl Scenario for SeqScenario {
     }
     fn judge_plan(&self, plan: &Plan, env: &Env) -> (Vec<Finding>, u64) {
         let rr = run_plan(&env.bins, plan, &RunOpts::default());
-        let (f, _) = judge_seq(plan, &rr);
+        let (mut f, _) = judge_seq(plan, &rr);
+        tag_removal_facts(plan, &rr, &mut f);
+        f.retain(|x| x.facts.get("reopened_after_file_removal") != Some(&serde_json::json!(true)));
         let f = self.map_findings(f);
         (f.into_iter().filter(|f| self.owns.iter().any(|p| f.rule.starts_with(p))).collect(), history_hash(&rr))
     }
@@ -627,6 +668,29 @@ pub fn judge_reclaim(plan: &Plan, rr: &RunResult) -> (Vec<Finding>, u64) {
                             }
                         }
                         if !unconsumed.is_empty() {
+                            // was there an earlier removal followed by a reopen (fresh process or same-process)?
+                            let mut earlier_removal = false;
+                            let mut reopened_after = false;
+                            'scan: for (j, inc2) in rr.incs.iter().enumerate() {
+                                if j > 0 && earlier_removal {
+                                    reopened_after = true;
+                                }
+                                for e2 in &inc2.events {
+                                    if j == i && e2.step >= e.step && e2.t == "io" {
+                                        break 'scan;
+                                    }
+                                    if e2.t == "io" && e2.io.as_ref().map(|x| x.kind == "Remove").unwrap_or(false) {
+                                        earlier_removal = true;
+                                    }
+                                    if e2.t == "ret" && earlier_removal {
+                                        if let Some(id2) = e2.op {
+                                            if matches!(ops.get(&id2).map(|o| &o.kind), Some(OpKind::Open { .. })) {
+                                                reopened_after = true;
+                                            }
+                                        }
+                                    }
+                                }
+                            }
                             out.push(
                                 Finding::new(
                                     "c12.removed_unconsumed",
@@ -634,7 +698,8 @@ pub fn judge_reclaim(plan: &Plan, rr: &RunResult) -> (Vec<Finding>, u64) {
                                     0,
                                     format!("file {} is deleted at step {} while it holds {} acknowledged entries that no consuming read has returned (e.g. topic {} seq={:x}); it holds {} entries in total", io.path, e.step, unconsumed.len(), unconsumed[0].0, unconsumed[0].1, held.len()),
                                 )
-                                .fact("unconsumed", serde_json::json!(unconsumed.len())),
+                                .fact("unconsumed", serde_json::json!(unconsumed.len()))
+                                .fact("reopened_after_file_removal", serde_json::json!(reopened_after)),
                             );
                         }
                     }
